@@ -6,6 +6,6 @@ export GOFLAGS=-mod=mod GOPROXY=off GOSUMDB=off GOTOOLCHAIN=local GODEBUG=goinde
 mkdir -p bin evidence replays
 go build -o bin/check ./cmd/check
 go build -o bin/instr ./instr
-# warm the cache for the harness builds (poly + deps)
-go build -o /dev/null -tags c12 ./cmd/verifbin
+# warm the build cache for the harness builds (poly + deps + shims)
+for t in c12 c09; do go build -o /dev/null -tags $t ./cmd/verifbin || true; done
 echo setup ok
